@@ -40,6 +40,31 @@ func pokeTx(tx *types.Transaction, loc common.Location) {
 	if tx == nil {
 		return
 	}
+	// Two shapes a decoder can let through make every consumer crash (Hash, ProtoEncode, ...): an
+	// external transaction without recipient and a Qi transaction without signature. They are
+	// root causes of their own, named as such (unless an outer group already names the decoder).
+	shape := ""
+	func() {
+		defer func() { recover() }()
+		switch tx.Type() {
+		case types.ExternalTxType:
+			if tx.To() == nil {
+				shape = "types.Transaction/etx-decoded-without-recipient"
+			}
+		case types.QiTxType:
+			if tx.GetSchnorrSignature() == nil {
+				shape = "types.Transaction/qi-decoded-without-signature"
+			}
+		}
+	}()
+	if shape != "" && stepGroup == "" {
+		grouped(shape, func() { pokeTxSteps(tx, loc) })
+		return
+	}
+	pokeTxSteps(tx, loc)
+}
+
+func pokeTxSteps(tx *types.Transaction, loc common.Location) {
 	step(func() { _, _, _, _ = tx.Hash(), tx.Hash(loc...), tx.Size(), tx.Data() })
 	step(func() {
 		switch tx.Type() {
